@@ -428,7 +428,9 @@ func runConsume(m *mon.M, c *Case) {
 		// encoding/csv's writer rejects these options as soon as one record is written: with a
 		// malformed input either error may come first, so only the presence of an error is judged
 		m.Class("writer-options-rejected-by-reference")
-		if err == nil && (perr != nil || len(want) > 0) {
+		if noR, noE := outcomeWith(c, false); err == nil && (perr != nil || len(want) > 0) && noE == "" && len(noR) == 0 {
+			m.Violate("reader-options-ignored/consume/"+dc, fmt.Sprintf("CSVConsumer into %s: input %s options {%s}: nil returned although the writer options are invalid: without the reader options the text holds no record to write", c.Kind, short([]byte(text)), c.Opts.set()), c)
+		} else if err == nil && (perr != nil || len(want) > 0) {
 			m.Violate("writer-error-swallowed/consume/"+dc, fmt.Sprintf("CSVConsumer into %s: encoding/csv's writer rejects the options {%s}, the consumer returned nil", c.Kind, c.Opts.set()), c)
 		}
 		return
@@ -651,7 +653,9 @@ func runProduce(m *mon.M, c *Case) {
 	}
 	if writerOptionsInvalid(c.Opts) {
 		m.Class("writer-options-rejected-by-reference")
-		if err == nil && (perr != nil || len(want) > 0) && c.Kind != "binm" {
+		if noR, noE := outcomeWith(c, false); err == nil && (perr != nil || len(want) > 0) && !tableKind && noE == "" && len(noR) == 0 {
+			m.Violate("reader-options-ignored/produce/"+sc, fmt.Sprintf("CSVProducer from %s: input %s options {%s}: nil returned although the writer options are invalid: without the reader options the text holds no record to write", c.Kind, short([]byte(text)), c.Opts.set()), c)
+		} else if err == nil && (perr != nil || len(want) > 0) {
 			m.Violate("writer-error-swallowed/produce/"+sc, fmt.Sprintf("CSVProducer from %s: encoding/csv's writer rejects the options {%s}, the producer returned nil", c.Kind, c.Opts.set()), c)
 		}
 		return
